@@ -2,6 +2,50 @@
 from pyvc.rt import *  # noqa: F401,F403
 
 PROPERTY = "C09"
+USES_NX = True
+CR = "synkit/Chem/Reaction/canon_rsmi.py"
 CLASSES = {}
-FUNCTIONS = {}
-BOUNDED_ONLY = True
+TRUSTED = ["A-nx-graph", "A-builtins (sorted: permutation ordered by key)"]
+ASSUMPTIONS = ["only the graph-level pairing step of CanonRSMI is under contract; SMILES parsing / writing, canonical numbering of the reactant graph, Standardize, "
+               "AAMValidator and BalanceReactionCheck are RDKit layers decided by the bounded twin only"]
+
+
+def amap(G, n):
+    return G.nodes[n].get("atom_map", 0)
+
+
+def maps_ok(G):
+    """atom-map numbers are integers and the positive ones are pairwise different"""
+    return forall(G.nodes, lambda n: isinstance(amap(G, n), int) and not isinstance(amap(G, n), bool)) and \
+        forall((G.nodes, G.nodes), lambda a, b: implies(not same(a, b) and amap(G, a) > 0, amap(G, a) != amap(G, b)))
+
+
+FUNCTIONS = {
+    # the product graph is renumbered along the atom maps it SHARES with the canonical reactant graph: one pair per shared
+    # map number, pairing the two atoms that carry it, ordered by map number
+    CR + "::CanonRSMI.get_aam_pairwise_indices": {
+        "static": True,
+        "params": {"G": "obj:Graph", "H": "obj:Graph", "aam_key": "const:'atom_map'"},
+        "vars": {"gmap": "dict[any,any]", "hmap": "dict[any,any]", "common": "list[any]"},
+        "returns": "list[tuple[any,any]]",
+        "requires": ["maps_ok(G)", "maps_ok(H)"],
+        "modifies": [],
+        "hints": [
+            "forall(G.nodes, lambda g: implies(amap(G, g) > 0, amap(G, g) in gmap and same(gmap[amap(G, g)], g)))",
+            "forall(H.nodes, lambda h: implies(amap(H, h) > 0, amap(H, h) in hmap and same(hmap[amap(H, h)], h)))",
+            "len(result) == len(common) and forall(range(len(common)), lambda i: same(result[i][0], gmap[common[i]]) and same(result[i][1], hmap[common[i]]))",
+            "forall('any', lambda k: implies(k in gmap and k in hmap, exists(range(len(common)), lambda i: same(common[i], k))))",
+            "forall('any', lambda k: implies(k in gmap and k in hmap, exists(range(len(result)), lambda i: same(result[i][0], gmap[k]) and same(result[i][1], hmap[k]))))",
+        ],
+        "ensures": [
+            # every pair joins two atoms with the same positive map number
+            "forall(range(len(result)), lambda i: G.has_node(result[i][0]) and H.has_node(result[i][1]) and amap(G, result[i][0]) > 0 "
+            "and amap(G, result[i][0]) == amap(H, result[i][1]))",
+            # every atom of G whose map number also occurs in H is paired (and with that atom)
+            "forall((G.nodes, H.nodes), lambda g, h: implies(amap(G, g) > 0 and amap(G, g) == amap(H, h), "
+            "exists(range(len(result)), lambda i: same(result[i][0], g) and same(result[i][1], h))))",
+            # ordered by map number, no repetition
+            "forall((range(len(result)), range(len(result))), lambda i, j: implies(i < j, amap(G, result[i][0]) < amap(G, result[j][0])))",
+        ],
+    },
+}
